@@ -884,6 +884,27 @@ fn normalize_extreme_literal_mantissa(
     })
 }
 
+/// Verification hook: direct access to [`normalize_extreme_literal_mantissa`] with an arbitrary
+/// digit cap. `s` must contain an `e`/`E`. Returns `(mantissa_str, new_exp, saturated, digit_count)`.
+#[cfg(feature = "verif-hooks")]
+#[doc(hidden)]
+pub fn verif_normalize_extreme_literal_mantissa(
+    s: &str,
+    mantissa_digit_cap: Option<usize>,
+) -> Option<Result<(String, i128, bool, i128), i128>> {
+    let exp_pos = s.find(['e', 'E'])?;
+    Some(
+        normalize_extreme_literal_mantissa(s, exp_pos, mantissa_digit_cap).map(|n| {
+            (
+                n.mantissa_str,
+                n.new_exp.value(),
+                n.new_exp.is_saturated(),
+                n.digit_count,
+            )
+        }),
+    )
+}
+
 /// [`normalize_extreme_literal_mantissa`]'s successful result: a literal's
 /// mantissa renormalized to jq's one-digit-before-the-point form, together
 /// with the exponent that shift folds into and the mantissa's own true
